@@ -78,33 +78,54 @@ def liveOf (m : Array Bool) (imm : Id → Bool) (n : Nat) : Nat → Bool :=
 /-- table insertion of `add_candidate` (the tables are hash sets) -/
 def addCandidate (t : List Nat) (r : Nat) : List Nat := if t.contains r then t else t ++ [r]
 
-/-- One stop-the-world collection as the reference / finalizable processors see it. -/
+/-- the soft table as a `RefState` over the shadow heap's referent fields -/
+def softState (i : GcIn) (w : WState) : RefProc.RefState :=
+  { table := w.soft, referent := referentOf i.heap, enqueued := [] }
+
+/-- liveness after the strong closure -/
+def live0 (i : GcIn) : Nat → Bool := liveOf (reachFrom i.heap i.seeds) i.immortal i.heap.objs.size
+
+/-- SoftRefClosure: what `retain` traces (nothing in an emergency collection) -/
+def retained (i : GcIn) (w : WState) : List Nat :=
+  if i.emergency then [] else RefProc.retainSet (live0 i) (softState i w)
+
+/-- liveness when the soft and weak tables are scanned, and when the finalizable candidates are examined -/
+def live1 (i : GcIn) (w : WState) : Nat → Bool :=
+  liveOf (reachFrom i.heap (i.seeds ++ retained i w)) i.immortal i.heap.objs.size
+
+def soft1 (i : GcIn) (w : WState) : RefProc.RefState := RefProc.scanRefs (live1 i w) (softState i w)
+
+def weak1 (i : GcIn) (w : WState) : RefProc.RefState :=
+  RefProc.scanRefs (live1 i w) { table := w.weak, referent := (soft1 i w).referent, enqueued := [] }
+
+def fin1 (i : GcIn) (w : WState) : RefProc.FinState := w.fin.scan (live1 i w)
+
+/-- marked set after the ready finalizable objects were traced (FinalRefClosure) -/
+def marked2 (i : GcIn) (w : WState) : Array Bool :=
+  reachFrom i.heap (i.seeds ++ retained i w ++ (fin1 i w).ready.map (·.2))
+
+def live2 (i : GcIn) (w : WState) : Nat → Bool := liveOf (marked2 i w) i.immortal i.heap.objs.size
+
+/-- the `RescanReferences` sentinel of FinalRefClosure -/
+def soft2 (i : GcIn) (w : WState) : RefProc.RefState :=
+  RefProc.scanRefs (live2 i w) { soft1 i w with referent := (weak1 i w).referent }
+
+def weak2 (i : GcIn) (w : WState) : RefProc.RefState :=
+  RefProc.scanRefs (live2 i w) { weak1 i w with referent := (soft2 i w).referent }
+
+def phantom2 (i : GcIn) (w : WState) : RefProc.RefState :=
+  RefProc.scanRefs (live2 i w) { table := w.phantom, referent := (weak2 i w).referent, enqueued := [] }
+
+/-- One stop-the-world collection as the reference / finalizable processors see it: SoftRefClosure (`retain`
+unless emergency, closure, `scan`), WeakRefClosure, FinalRefClosure (finalizable scan; ready objects are kept
+alive with their closure; then the rescan sentinel), PhantomRefClosure. -/
 def gcStages (i : GcIn) (w : WState) : GcOut :=
-  let n := i.heap.objs.size
-  let ref0 := referentOf i.heap
-  -- strong closure
-  let live0 := liveOf (reachFrom i.heap i.seeds) i.immortal n
-  -- SoftRefClosure: `retain` (unless emergency), closure, `scan`
-  let sS : RefProc.RefState := { table := w.soft, referent := ref0, enqueued := [] }
-  let retained := if i.emergency then [] else RefProc.retainSet live0 sS
-  let live1 := liveOf (reachFrom i.heap (i.seeds ++ retained)) i.immortal n
-  let sS1 := RefProc.scanRefs live1 sS
-  -- WeakRefClosure
-  let sW1 := RefProc.scanRefs live1 { table := w.weak, referent := sS1.referent, enqueued := [] }
-  -- FinalRefClosure: finalizable scan, ready objects are kept alive with their closure, then the
-  -- `RescanReferences` sentinel (soft + weak once more)
-  let f1 := w.fin.scan live1
-  let m2 := reachFrom i.heap (i.seeds ++ retained ++ f1.ready.map (·.2))
-  let live2 := liveOf m2 i.immortal n
-  let sS2 := RefProc.scanRefs live2 { sS1 with referent := sW1.referent }
-  let sW2 := RefProc.scanRefs live2 { sW1 with referent := sS2.referent }
-  -- PhantomRefClosure
-  let sP := RefProc.scanRefs live2 { table := w.phantom, referent := sW2.referent, enqueued := [] }
-  let refF := sP.referent
-  let enqNow := sS2.enqueued ++ sW2.enqueued ++ sP.enqueued
-  { w := { soft := sS2.table, weak := sW2.table, phantom := sP.table, fin := f1, enq := w.enq ++ enqNow }
-    cleared := (w.soft ++ w.weak ++ w.phantom).filter fun r => (ref0 r).isSome && (refF r).isNone
-    live := (Array.range n).map live2
+  let enqNow := (soft2 i w).enqueued ++ (weak2 i w).enqueued ++ (phantom2 i w).enqueued
+  { w := { soft := (soft2 i w).table, weak := (weak2 i w).table, phantom := (phantom2 i w).table, fin := fin1 i w,
+           enq := w.enq ++ enqNow }
+    cleared := (w.soft ++ w.weak ++ w.phantom).filter fun r =>
+      (referentOf i.heap r).isSome && ((phantom2 i w).referent r).isNone
+    live := (Array.range i.heap.objs.size).map (live2 i w)
     enqNow := enqNow }
 
 /-- `get_all_finalizers`: candidates and ready objects are handed out, nothing stays registered. -/
